@@ -4,7 +4,7 @@ import FgaVerif.Proofs.WeightsCongr
 /-! # C05 — a model is accepted iff it is well-founded (specification side)
 
     As for C04, `Spec/Weights.lean` is a specification the real verdict is compared with under every
-    forced traversal order; the Go algorithm is not modelled.  The theorems state that the
+    forced traversal order; the Go algorithm is ported separately (`Model/WAssign.lean`) and not proved equal to it.  The theorems state that the
     specification's verdict is the one the property describes.
 
     Proved for every specification graph:
